@@ -127,7 +127,22 @@ let validate_pending (before : med option) (after : med option) =
   Stdlib.List.iter
     (fun (c, l) ->
       let ok e = match e with Some e -> m_valid_conv e c l.l_result | None -> false in
-      if not (ok before || ok after) then problems := Printf.sprintf "INVALID-CONVERSION %s" l.l_raw :: !problems)
+      (* the engine model (Model/Engine.v) predicts the alternative itself whenever it is exact *)
+      let predicted e =
+        match e with
+        | None -> false
+        | Some e -> (
+            match m_engine_alts e c with
+            | Lib.Ok (alts, big) ->
+                big
+                ||
+                let n = Stdlib.List.length alts in
+                n > 0 && Stdlib.List.nth alts (l.l_nth mod n) = l.l_result
+            | _ -> false)
+      in
+      if not ((ok before && predicted before) || (ok after && predicted after)) then
+        if ok before || ok after then problems := Printf.sprintf "ENGINE-DIFFERS %s" l.l_raw :: !problems
+        else problems := Printf.sprintf "INVALID-CONVERSION %s" l.l_raw :: !problems)
     (Stdlib.List.rev !pending);
   pending := []
 
@@ -224,6 +239,7 @@ let conv_main trace out =
   let oc = open_out out in
   let sys = ref [] and usr = ref [] in
   let comp : composition option ref = ref None in
+  let engines_done : string list ref = ref [] in
   (try
      while true do
        let line = input_line ic in
@@ -253,8 +269,26 @@ let conv_main trace out =
              Stdlib.List.map (function "B" -> GBegin | "K" -> GBreak | "G" -> GGlue | _ -> GNormal)
                (Stdlib.List.filter (fun x -> x <> "") (split ',' (field "gaps" fs)))
            in
+           engines_done := [];
            comp := Some { symbols = syms; gaps; selections = parse_intervals (field "sels" fs) }
        | "ALT" ->
+           (* the first ALT of an engine: the model's own ranked alternatives (Model/Engine.v) *)
+           (match (split ' ' rest, !comp) with
+            | k :: _, Some c when not (Stdlib.List.mem k !engines_done) ->
+                engines_done := k :: !engines_done;
+                let d = { md_sys = !sys; md_user = !usr; md_grave = [] } in
+                let e0 = m_init d [] { ss_category = []; ss_table = []; ss_cursor = None } (n_of_int 0) in
+                let e = m_set_engine e0 (match int_of_string k with 0 -> EngSimple | 1 -> EngChewing | _ -> EngFuzzy) in
+                (match m_engine_alts e c with
+                 | Lib.Ok (alts, big) ->
+                     Printf.fprintf oc "MX %s exact=%s n=%d\n" k (b01 (not big)) (Stdlib.List.length alts);
+                     Stdlib.List.iter
+                       (fun ivs -> Printf.fprintf oc "MALT %s %s\n" k (String.concat "," (Stdlib.List.map iv_str ivs)))
+                       alts
+                 | Lib.Panic n -> Printf.fprintf oc "MX %s PANIC %d\n" k (int_of_n n)
+                 | Lib.OutOfFuel -> Printf.fprintf oc "MX %s OUTOFFUEL\n" k
+                 | Lib.Err n -> Printf.fprintf oc "MX %s ERR %d\n" k (int_of_n n))
+            | _ -> ());
            (match (split ' ' rest, !comp) with
             | k :: ivs, Some c when (match ivs with "PANIC" :: _ -> false | _ -> true) ->
                 let ivs = parse_intervals (String.concat " " ivs) in
